@@ -241,6 +241,14 @@ def gen_history(rng, opts):
         cname = rng.choice(sorted(classes))
         play = created > 0 and rng.random() < opts.get('play_ratio', 0.4)
         t0 = 10 * r
+        if opts.get('foreign') and rng.random() < 0.1:
+            # a recording that was not made by this recorder (imported / saved through the cassette API), possibly without
+            # the duration metadata and without an operation output; later runs may replay it
+            runs.append({'run': 'foreign', 'cls': cname, 'enabled': True, 'script': [], 'duration': rng.random() < 0.4,
+                         'output': rng.choice([None, {'s': 'done'}, {'i': '7'}])})
+            scripts.append((cname, gen_script(rng, sites, opts, length=rng.choice([0, 0, 1, 2]))))
+            created += 1
+            continue
         if play or (opts.get('missing_play') and rng.random() < 0.08):
             if created > 0 and rng.random() < 0.9:
                 n = rng.randrange(created)
